@@ -495,6 +495,17 @@ def run_impl(case):
     obs["err"] = None
     obs["feasible"] = feas
     obs["feas_t"] = [_feas(net, S[:, t:t + 1], tol, lin) for t in range(S.shape[1])]
+    # a caller that keeps ONE schedule array and fills it in place (a greedy loop: raise a rate, ask, lower it again): the
+    # network is asked about the array while it is all zero, then the schedule is written INTO THE SAME ARRAY and it is asked again
+    try:
+        A = np.zeros_like(S, dtype=float)
+        first = _feas(net, A, tol, lin)
+        A[...] = S
+        obs["feasible_inplace"] = [bool(first), bool(_feas(net, A, tol, lin))]
+        A *= 0.0
+        obs["feasible_inplace"].append(bool(_feas(net, A, tol, lin)))
+    except ValueError:
+        obs["feasible_inplace"] = None
     obs["mags"] = [[float(x) for x in row] for row in mags.tolist()]
     return obs
 
@@ -661,6 +672,11 @@ def oracle(case, obs):
     if obs.get("edge_expected") is not None and obs["feasible"] != obs["edge_expected"]:
         fails.append({"kind": "edge_decision_wrong",
                       "detail": f"mode {case['mode']}: is_feasible={obs['feasible']} expected={obs['edge_expected']}"})
+    fi = obs.get("feasible_inplace")
+    if fi is not None and (fi[1] != obs["feasible"] or fi[0] != fi[2]):
+        fails.append({"kind": "answer_depends_on_earlier_query_of_same_array",
+                      "detail": f"zeros -> {fi[0]}, schedule written into the same array -> {fi[1]} (a fresh array with the same contents: "
+                                f"{obs['feasible']}), zeroed again -> {fi[2]}"})
     if obs["feasible"] != all(obs["feas_t"]):
         fails.append({"kind": "feasible_not_conjunction_of_periods",
                       "detail": f"is_feasible={obs['feasible']} but per period {obs['feas_t'][:8]}"})
@@ -1072,6 +1088,17 @@ def _simple_run(case):
     obs["err"] = None
     obs["feasible"] = feas
     obs["feas_t"] = [_feas(net, S[:, t:t + 1], tol, lin) for t in range(S.shape[1])]
+    # a caller that keeps ONE schedule array and fills it in place (a greedy loop: raise a rate, ask, lower it again): the
+    # network is asked about the array while it is all zero, then the schedule is written INTO THE SAME ARRAY and it is asked again
+    try:
+        A = np.zeros_like(S, dtype=float)
+        first = _feas(net, A, tol, lin)
+        A[...] = S
+        obs["feasible_inplace"] = [bool(first), bool(_feas(net, A, tol, lin))]
+        A *= 0.0
+        obs["feasible_inplace"].append(bool(_feas(net, A, tol, lin)))
+    except ValueError:
+        obs["feasible_inplace"] = None
     obs["mags"] = [[float(x) for x in row] for row in mags.tolist()]
     return obs
 
@@ -1189,6 +1216,11 @@ def _simple_oracle(case, obs):
                               "detail": f"mode {case['mode']}, {n} stations, {c} kW at {v} V{how}: period {t} totals {tot!r} A = {v * tot / 1000.0:.9f} kW, "
                                         f"bound {B!r} A; is_feasible={a}, expected {e}"})
                 break
+    fi = obs.get("feasible_inplace")
+    if fi is not None and (fi[1] != obs["feasible"] or fi[0] != fi[2]):
+        fails.append({"kind": "answer_depends_on_earlier_query_of_same_array",
+                      "detail": f"zeros -> {fi[0]}, schedule written into the same array -> {fi[1]} (a fresh array with the same contents: "
+                                f"{obs['feasible']}), zeroed again -> {fi[2]}"})
     if obs["feasible"] != all(obs["feas_t"]):
         fails.append({"kind": "feasible_not_conjunction_of_periods", "detail": f"is_feasible={obs['feasible']} but per period {obs['feas_t'][:8]}"})
     # (c) the property itself, for every period judged alone:  accepted ⇒ V·ΣS/1000 ≤ cap + V·max(vt, rt·L)/1000;
